@@ -50,7 +50,7 @@ Z3CLI = os.environ.get("PYVC_Z3CLI") or "z3-new"
 HARD_CAP_S = int(os.environ.get("PYVC_HARD_CAP_S", "900"))   # safety net only; verdicts are bounded by resource limits
 STAGE0_TLIMIT_MS = int(os.environ.get("PYVC_STAGE0_TLIMIT_MS", "4000"))
 STAGE1_TLIMIT_S = int(os.environ.get("PYVC_STAGE1_TLIMIT_S", "30"))
-CLI_TLIMIT_S = int(os.environ.get("PYVC_CLI_TLIMIT_S", "90"))      # hard wall limit per subprocess stage
+CLI_TLIMIT_S = int(os.environ.get("PYVC_CLI_TLIMIT_S", "240"))      # hard wall limit per subprocess stage
 RLIMIT_CLI = int(os.environ.get("PYVC_RLIMIT_CLI", "60000000"))
 RLIMIT_CVC5 = int(os.environ.get("PYVC_RLIMIT_CVC5", "600000"))
 
@@ -238,7 +238,7 @@ def race(smt2: str, try_cvc5=True, limit_s=None):
     try:
         if exe:
             zp = tmp(ztext)
-            for seed in (0, 1):
+            for seed in (0, 1, 2):
                 procs[f"z3-cli(seed={seed})"] = subprocess.Popen(
                     [exe, f"-T:{limit_s}", f"rlimit={RLIMIT_CLI}", "smt.mbqi=false", "smt.auto_config=false",
                      "smt.qi.eager_threshold=100", f"smt.random_seed={seed}", zp],
